@@ -9,8 +9,13 @@ quick check is run and must exit 1 naming the expected rule, then the edit is re
 import json, os, subprocess, sys
 here = os.path.dirname(os.path.dirname(os.path.abspath(__file__)))
 repo = os.environ.get("HZ_REPO", "/repo")
-muts = json.load(open(os.path.join(here, "selftest", "mutations.json")))
-sel = sys.argv[1:]
+# --benign: the other direction. selftest/benign.json lists behaviour-preserving edits
+# (renames, extracted temporaries, if→switch, reordered independent statements, a new field
+# with its reset line …); every listed property's check must stay silent (exit 0).
+benign = "--benign" in sys.argv
+muts = json.load(open(os.path.join(here, "selftest", "benign.json" if benign else "mutations.json")))
+sel = [a for a in sys.argv[1:] if a != "--benign"]
+allprops = [json.loads(l)["id"] for l in open(os.path.join(here, "properties.jsonl"))]
 ok = bad = 0
 # build once and run from a private copy so that editing the checker meanwhile is harmless
 import shutil, tempfile
@@ -28,12 +33,26 @@ for m in muts:
             p = os.path.join(repo, e["file"])
             s = open(p).read()
             n = s.count(e["old"])
-            if n != e.get("count", 1):
+            if n != e.get("count", 1) and not (e.get("all") and n > 0):
                 raise RuntimeError("%s: pattern occurs %d times in %s" % (m["id"], n, e["file"]))
             open(p, "w").write(s.replace(e["old"], e["new"]))
         b = subprocess.run("cd %s && GOFLAGS=-mod=mod go build ./... 2>&1 | tail -5" % (repo if not m.get("hz") else repo + "/cmd/hz"), shell=True, capture_output=True, text=True)
         if b.stdout.strip():
             raise RuntimeError("%s: mutant does not compile: %s" % (m["id"], b.stdout))
+        if benign:
+            from concurrent.futures import ThreadPoolExecutor
+            cenv = dict(os.environ, HZ_NOEVIDENCE="1", HZ_VERIF=here, GOFLAGS="-mod=mod", GOPROXY="off", GOSUMDB="off", GOTOOLCHAIN="local", GOWORK="off")
+            props = m.get("properties") or allprops
+            with ThreadPoolExecutor(6) as ex:
+                rs = list(ex.map(lambda p: (p, subprocess.run([tmpbin, "-property", p, "-tier", "quick"], capture_output=True, text=True, env=cenv)), props))
+            alarms = [(p, [l[:220] for l in r.stdout.splitlines() if l.startswith("FAIL ")][:3]) for p, r in rs if r.returncode != 0]
+            if alarms:
+                bad += 1
+                print("ALARM    %-34s %s" % (m["id"], alarms))
+            else:
+                ok += 1
+                print("silent   %-34s (%d properties)" % (m["id"], len(props)))
+            continue
         r = subprocess.run([tmpbin, "-property", m["property"], "-tier", m.get("tier", "quick")], capture_output=True, text=True, env=dict(os.environ, HZ_NOEVIDENCE="1", HZ_VERIF=here, GOFLAGS="-mod=mod", GOPROXY="off", GOSUMDB="off", GOTOOLCHAIN="local", GOWORK="off"))
         out = r.stdout
         hit = [l for l in out.splitlines() if l.startswith("FAIL ") and m["expect"] in l]
@@ -49,5 +68,5 @@ for m in muts:
     finally:
         subprocess.run(["git", "-C", repo, "checkout", "--", "."], check=True)
 shutil.rmtree(os.path.dirname(tmpbin), ignore_errors=True)
-print("selftest: caught=%d missed/error=%d" % (ok, bad))
+print("selftest%s: %s=%d %s=%d" % (" --benign" if benign else "", "silent" if benign else "caught", ok, "alarm/error" if benign else "missed/error", bad))
 sys.exit(1 if bad else 0)
